@@ -14,7 +14,9 @@ import (
 // C07 — sorted sets order members by (score, key).
 
 var zKeys = []string{"", "a", "b", "c", "d", "\xff"}
-var zScores = []float64{-2, -1, 0, 1, 1, 2, 2.5}
+// integers with ties, and scores that need more than six decimals (1/3, 1e-7, two scores 3e-7 apart): the score
+// travels through the record key as text
+var zScores = []float64{-2, -1, 0, 1, 1, 2, 2.5, 1.0 / 3, 1e-7, -1e-7, 0.3333331, 0.3333334, 1234567.1234567}
 var zBounds = []float64{-3, -2, -1, 0, 0.5, 1, 2, 2.5, 3}
 
 func genZOp(buckets []string) func(t *rapid.T) Op {
